@@ -742,14 +742,19 @@ class BaseModel(ModelInterface):
         """
         if (dataset := BaseModel._get_dataset(data)) is None:
             return
-        if not self.is_initialized:
-            self.initialize(dataset)
         if (
             algorithm := BaseModel._get_algorithm(
                 algorithm, algorithm_settings, algorithm_settings_path, **kwargs
             )
         ) is None:
+            if not self.is_initialized:
+                self.initialize(dataset)
             return
+        if not self.is_initialized:
+            if self.initialization_method == InitializationMethod.RANDOM:
+                # a random initialization draws from the global generators: the seed of the run covers it too
+                algorithm._initialize_seed(algorithm.seed)
+            self.initialize(dataset)
         algorithm.run(self, dataset)
 
     @staticmethod
